@@ -6,7 +6,7 @@ open Cocls Cocls.Proto Cocls.Mutex
 def seenStr : Seen → String
   | Seen.null => "null"
   | Seen.door => "door"
-  | Seen.node _ => "ptr"
+  | Seen.node _ _ => "ptr"
 
 def evStr : Ev → String
   | Ev.cas t a ok s d => s!"s {t} a{a} cas{if ok then "+" else "-"} req {seenStr s}>{seenStr d}"
